@@ -266,8 +266,8 @@ class Kernel(object):
             runnable = [t for t in self.tasks if t.state == RUNNABLE]
             h = self.handoff
             if h is not None and h["state"] == 1 and h["trigger"] is not None and (
-                    h["trigger"].state == DONE or (h["trigger"].state == BLOCKED and h["trigger"].wait_on in (
-                        "Lock", "RLock", "RLock(reacquire)"))):
+                    h["trigger"].state == DONE or (h["trigger"].state == BLOCKED and (h.get("release_on_block") or h["trigger"].wait_on in (
+                        "Lock", "RLock", "RLock(reacquire)")))):
                 # the trigger thread waits for a lock (which the parked thread may hold) or has ended: go on
                 h["state"] = 2
                 h["released_by"] = "lock" if h["trigger"].state == BLOCKED else "done"
